@@ -176,12 +176,38 @@ NOT_YET = {}
 ALL = [f"C{i:02d}" for i in range(1, 21)]
 
 
+# workloads added after the third round of seeded defects ("hostile but legitimate callers", DESIGN.md §2)
+ROUND3 = {
+    "C01": " Also: a setup rejected half-way on the same object and key before the real one, the key of another configuration, the caller rewriting its cfg dict and database after setup, array-edge databases (255/256/257 blocks) and databases whose keywords share one list object.",
+    "C02": " Absent families include every keyword the key or the object has seen before (earlier database, other configuration, a database whose setup was rejected half-way).",
+    "C03": " A wide-parameters shard runs the pipeline at keyword limits of 300-2000 bytes, long labels and 64-200-byte identifiers; SSE-2's param_n ranges from exact to just past the next PRP width.",
+    "C04": " Disjointness is also required when the host re-seeds the global random generator with one value before each build, and between builds made in two workers forked after a first build.",
+    "C05": " Four shards build pairs of 20000-33000-posting databases with 16-byte identifiers (level entries over 1 MiB).",
+    "C06": " Every eighth placement pair is built in two workers forked after the parent's own setup; CT14/ANSS16 tables stay ascending with 3-byte labels whose random fillers coincide.",
+    "C07": " Every sixth case is a 40-100-keyword database searched forwards, backwards, shuffled and at random (histories over more than 30 distinct tokens on one object and index).",
+    "C08": " In half of the accepted cases the caller's configuration dict is rewritten or emptied right after setup.",
+    "C09": " JSON keywords include valid Unicode that is not normalised; the expected database is computed by the harness; two client services in one process make every network step at the same moment.",
+    "C10": " Bursts of 2-4 requests written without reading replies (after 0-2 acknowledged steps) must not be acknowledged beyond the first refusal and must leave state, files and search as the model says.",
+    "C11": " The commands layer also issues create-service with an unreadable configuration file (refused; whole client tree and alias table unchanged) and one workflow searches a 1.28 MB answer.",
+    "C12": " A connection on another service id closes at every point of five script tuples' interleavings with its cleanup (which holds the global registry lock) released one step late or at the end.",
+    "C13": " Every crashed directory is recovered twice (at once; after a connection that only looks at the service), and the create-service command with its alias table is a crash step of its own.",
+    "C14": " Hostile callers: reused caller-owned bytearrays, a host that re-seeds random, workers forked after the first encryption, valid calls after refused ones.",
+    "C15": " Hostile callers: one cipher / PRP object with a key buffer overwritten in place, alternating keys, refused-then-valid calls, compared with fresh objects.",
+    "C16": " Key and message are also passed as caller-owned bytearrays, twice.",
+    "C17": " Parse / partition / split are repeated after the caller changed the lists they returned; bytearray inputs; block sizes beyond 64 KiB; non-NFC keywords.",
+    "C18": " Byte spellings with redundant leading zero bytes or fewer bytes than ceil(n/8).",
+    "C19": " Membership probes also as bytearray / memoryview.",
+    "C20": " from_dict sources also defaultdict, OrderedDict and a dict with __missing__.",
+}
+
+
 def main():
     checks = []
     for pid in ALL:
         if pid not in CHECKS:
             continue
         cat, tech, text, note, ref = CHECKS[pid]
+        text = text + ROUND3.get(pid, "")
         checks.append({
             "property_id": pid,
             "quick_cmd": f"./check {pid} quick",
